@@ -169,7 +169,9 @@ add("C16",
     "Lean 4 proof (invariant over all histories of the eight methods; per-call return values / events) + differential correspondence + listing oracle", "6/C16")
 add("C10",
     "PARTIAL. Proved: the twin theorems C12_twin / c_eq_py (IB_richcompare = the Python comparison for all six operators and all operands with string names) and "
-    "C14_twin / callC_eq_callPy (IB__call__ / IB__adapt__ incl. the _CALL_CUSTOM_ADAPT dispatch = InterfaceBase.__call__) — the C decision logic is modelled "
+    "C14_twin / callC_eq_callPy (IB__call__ / IB__adapt__ incl. the _CALL_CUSTOM_ADAPT dispatch = InterfaceBase.__call__), ZI.LookupTwin lookup_twin / lookup1_twin / "
+    "adapterHook_twin / verifying_twin (the C composition _adapter_hook -> _lookup1(default None) -> _lookup and the VB_* wrappers = the Python LookupBase / VerifyingBase "
+    "methods: answers, ValueError for non-string names on every path, and the cache left behind; run in lock step with the registry model by the driver) — the C decision logic is modelled "
     "separately from the Python one and proved equal for ALL inputs. Every other check ties each twin to its own implementation mode. This check compares the two "
     "implementations DIRECTLY on the operation streams of eight layers and on seeded odd-input API programs (results, exception types, subsequent behaviour).",
     "stated_not_proved: equality of the remaining twin pairs (SB_extends, providedBy / implementedBy fast paths, descriptors, LookupBase / VerifyingBase) — covered by "
